@@ -61,6 +61,7 @@ def run(ctx):
         tries += 1
         g0, fam = gen.gen_program(rng, rng.choice(["dag", "dag", "gated", "emit", "loop", "loop_sync", "cyc", "twocyc"])) if True else None
         g = configure(rng, g0)
+        gen.via_renames(rng, g, 0.25)   # some nodes derived by with_inputs from an (already used) node object
         try:
             G0 = engine.real_input_spec(g)
         except Exception:  # noqa: BLE001
@@ -103,6 +104,17 @@ def run(ctx):
         for x in bound:
             if x in R:
                 ctx.violation("oracle", f"bound name {x!r} is still reported as required", case=case, observed=spec)
+        # exactness against the function signatures as the program wrote them (flat graphs): a reported-required name has a
+        # consumer without a default for it; an unbound reported-optional name has a default in every consumer
+        if all(n["kind"] != "graph" for n in g["nodes"]):
+            users = lambda x: [n for n in g["nodes"] if x in n["inputs"]]  # noqa: E731
+            for x in R:
+                if users(x) and all(x in n.get("defaults", {}) for n in users(x)):
+                    ctx.violation("oracle", f"{x!r} is reported as required although every node reading it ({[n['name'] for n in users(x)]}) has a default for it", case=case, observed=spec)
+            for x in O - set(bound):
+                lacking = [n["name"] for n in users(x) if x not in n.get("defaults", {})]
+                if lacking:
+                    ctx.violation("oracle", f"{x!r} is reported as optional although {lacking} read(s) it without a default and nothing binds it", case=case, observed=spec)
         if bound:
             Gu = G.unbind(*bound)
             if real_spec(Gu) != spec0:
